@@ -174,13 +174,14 @@ func solveOnce(vc *VC, o *Obligation, dir string, idx int, timeoutS, seed int, n
 	type entry struct {
 		sp   solverSpec
 		seed int
+		file string
 	}
 	var race []entry
 	for _, sp := range solvers {
 		if only != "" && sp.name != only {
 			continue
 		}
-		race = append(race, entry{sp, seed})
+		race = append(race, entry{sp, seed, ""})
 	}
 	if only == "" {
 		extra := 5
@@ -188,14 +189,40 @@ func solveOnce(vc *VC, o *Obligation, dir string, idx int, timeoutS, seed int, n
 			extra = 1
 		}
 		for k := 1; k <= extra; k++ {
-			race = append(race, entry{solverSpec{fmt.Sprintf("z3-new~%d", k), solvers[0].args}, seed + k})
+			race = append(race, entry{solverSpec{fmt.Sprintf("z3-new~%d", k), solvers[0].args}, seed + k, ""})
+		}
+	}
+	if only == "" && !o.Cover && strings.Contains(smt, "(assert (forall ((r!q") {
+		// "lean" racer: the same query without the quantified heap-frame / allocation-monotonicity facts of loops and calls
+		// (dropping assumptions is sound: `unsat` is still a proof; any other answer of this racer is ignored). Obligations of
+		// long functions whose goal does not depend on what earlier loops left unchanged are decided several times faster.
+		var lbb strings.Builder
+		for _, ln := range strings.Split(smt, "\n") {
+			if strings.HasPrefix(ln, "(assert (forall ((r!q") {
+				continue
+			}
+			lbb.WriteString(ln)
+			lbb.WriteString("\n")
+		}
+		lb := lbb.String()
+		lean := filepath.Join(dir, fmt.Sprintf("o%05d_lean.smt2", idx))
+		if err := os.WriteFile(lean, []byte(lb), 0o644); err == nil {
+			defer os.Remove(lean)
+			race = append(race, entry{solverSpec{"z3-new/lean", solvers[0].args}, seed, lean})
 		}
 	}
 	ch := make(chan solverAnswer, len(race))
 	n := len(race)
 	for _, e := range race {
 		go func(e entry) {
-			a := runSolver(ctx, e.sp, file, timeoutS, e.seed)
+			f := file
+			if e.file != "" {
+				f = e.file
+			}
+			a := runSolver(ctx, e.sp, f, timeoutS, e.seed)
+			if e.file != "" && a.ans != "unsat" {
+				a.ans = "unknown" // only a proof counts from the lean racer
+			}
 			a.solver = e.sp.name
 			ch <- a
 		}(e)
@@ -203,7 +230,7 @@ func solveOnce(vc *VC, o *Obligation, dir string, idx int, timeoutS, seed int, n
 	families := func(names []string) int {
 		f := map[string]bool{}
 		for _, nm := range names {
-			if i := strings.IndexByte(nm, '~'); i >= 0 {
+			if i := strings.IndexAny(nm, "~/"); i >= 0 {
 				nm = nm[:i]
 			}
 			f[nm] = true
